@@ -784,6 +784,40 @@ theorem c10_addTask_from_rest (s : RsT) (g : Nat) (hrel : s.rel = 0)
   rw [if_neg (by intro h; exact hne h.1)]
   simp [hrel]
 
+/-- **C10 (a stop command ends everything)** whatever the shutter was doing - a task in any stage, an output energised, a
+    request waiting for the delayed trigger - the stop command leaves both outputs off, no pending trigger and no task -/
+theorem c10_stop_cmd_off (P : RsP) (s : RsT) :
+    (moveCmd P s 0).rel = 0 ∧ (moveCmd P s 0).pend = 0 ∧ (moveCmd P s 0).tstate = 0 ∧ (moveCmd P s 0).pos = s.pos := by
+  simp [moveCmd, relOff]
+
+/-- ... and it stays that way: on a calibrated shutter, after a stop command every sequence of accounting callbacks leaves
+    the outputs off, the task state idle and the position estimate untouched (the motor is not restarted by a stale task) -/
+theorem c10_stop_cmd_stays_off (P : RsP) (s : RsT) (hk : 100 ≤ s.pos ∧ s.pos ≤ 10100) (dts : List Nat) :
+    (rsRun P (moveCmd P s 0) dts).rel = 0 ∧ (rsRun P (moveCmd P s 0) dts).pend = 0 ∧
+    (rsRun P (moveCmd P s 0) dts).tstate = 0 ∧ (rsRun P (moveCmd P s 0) dts).pos = s.pos := by
+  obtain ⟨h1, h2, h3, h4⟩ := c10_stop_cmd_off P s
+  have hst : Stopped (moveCmd P s 0) := ⟨h1, h2, by rw [h4]; exact hk.1, by rw [h4]; exact hk.2, Or.inl h3⟩
+  obtain ⟨⟨r1, r2, _, _, _⟩, rp, rt⟩ := stopped_run P dts (moveCmd P s 0) hst
+  refine ⟨r1, r2, ?_, by rw [rp, h4]⟩
+  cases dts with
+  | nil => simpa only [rsRun] using h3
+  | cons d ds => exact rt (by simp)
+
+/-- a plain move command (up or down) cancels the running task: what follows is governed by the plain-move rules (end-stop
+    margin, 10-minute limit), not by a stale target -/
+theorem c10_move_cmd_cancels_task (P : RsP) (s : RsT) (w : Nat) :
+    (moveCmd P s w).tstate = 0 ∧ (moveCmd P s w).target = 0 ∧ (moveCmd P s w).dir = 0 := by
+  unfold moveCmd
+  by_cases hw : w = 0
+  · rw [if_pos hw]; simp [relOff]
+  · rw [if_neg hw]; unfold relReq; simp only; split <;> split <;> simp
+
+/-- non-vacuity: a stop in the middle of a running task -/
+example : (rsRun { fo := 20000, fc := 20000, margin := 110, inMove := false }
+      (moveCmd { fo := 20000, fc := 20000, margin := 110, inMove := false }
+        { pos := 4000, tstate := 2, dir := 1, rel := 1, target := 80, downT := 300000 } 0) [10000, 500000, 500000]).rel = 0 := by
+  decide
+
 /-- **C10 (the newest request wins)** a request made while the shutter is on its way somewhere else (a task running or an
     output energised) always becomes the task - also when the reported position happens to equal the requested one at
     that moment (before the repair in /repo such a request was ignored and the shutter ran on to the old target) -/
